@@ -1,6 +1,7 @@
 """Symbolic values and the Python-semantics operations on them (shared by executor and contracts)."""
 from __future__ import annotations
 import itertools
+from fractions import Fraction
 import z3
 from .tys import *
 
@@ -177,7 +178,7 @@ def ty_of(v):
         return BoolT
     if isinstance(v, int):
         return IntT
-    if isinstance(v, float):
+    if isinstance(v, (float, Fraction)):
         return RealT
     if isinstance(v, str):
         return StrT
@@ -193,7 +194,20 @@ def ty_of(v):
     return None
 
 
+def exact(x):
+    """python number -> exact rational (float literals are read as the decimal they were written as)"""
+    if isinstance(x, Fraction):
+        return x
+    if isinstance(x, bool):
+        return Fraction(int(x))
+    if isinstance(x, int):
+        return Fraction(x)
+    return Fraction(repr(x))
+
+
 def realval(x):
+    if isinstance(x, Fraction):
+        return z3.RealVal(str(x))
     if isinstance(x, int):
         return z3.RealVal(x)
     return z3.RealVal(repr(x)) if isinstance(x, float) else z3.RealVal(x)
@@ -239,6 +253,13 @@ def coerce(v, ty):
             return z3.IntVal(v)
         if ty is RealT:
             return z3.RealVal(v)
+        if ty is BoolT:
+            return z3.BoolVal(v != 0)
+    if isinstance(v, Fraction):
+        if ty is RealT:
+            return realval(v)
+        if ty is IntT and v.denominator == 1:
+            return z3.IntVal(int(v))
         if ty is BoolT:
             return z3.BoolVal(v != 0)
     if isinstance(v, float):
@@ -402,7 +423,7 @@ def z3_truth(v):
     """python truthiness as a z3 Bool (or python bool)"""
     if v is None:
         return z3.BoolVal(False)
-    if isinstance(v, (bool, int, float, str)):
+    if isinstance(v, (bool, int, float, str, Fraction)):
         return z3.BoolVal(bool(v))
     if isinstance(v, (tuple, list)):
         return z3.BoolVal(len(v) > 0)
@@ -506,7 +527,7 @@ def v_eq(a, b):
     try:
         return mkbool(a.e == coerce(b, a.ty))
     except PyvcUnsupported:
-        if isinstance(b, (int, float)) and a.ty in (IntT, RealT):
+        if isinstance(b, (int, float, Fraction)) and a.ty in (IntT, RealT):
             return mkbool(coerce(a, RealT) == realval(b))
         return False
 
@@ -557,7 +578,16 @@ def v_arith(op, a, b):
             return b
         if isinstance(b, EmptyColl) and op == "+":
             return a
-        if isinstance(a, (int, float)) and isinstance(b, (int, float)):
+        if isinstance(a, (int, float, Fraction)) and isinstance(b, (int, float, Fraction)):
+            if isinstance(a, bool):
+                a = int(a)
+            if isinstance(b, bool):
+                b = int(b)
+            if isinstance(a, int) and isinstance(b, int) and op != "/":
+                pass
+            else:
+                # machine arithmetic treated as mathematical: constants are folded exactly
+                a, b = exact(a), exact(b)
             if op == "+": return a + b
             if op == "-": return a - b
             if op == "*": return a * b
@@ -600,7 +630,7 @@ def py_mod(x, y):
 
 def v_int_trunc(a):
     """python int(x): truncation toward zero on reals"""
-    if isinstance(a, (int, float)):
+    if isinstance(a, (int, float, Fraction)):
         return int(a)
     if a.ty is IntT:
         return a
